@@ -7,13 +7,14 @@
 EXTENDS PatternGrammar, PatternScanFn, TLC
 CONSTANT MaxLen
 VARIABLES type, text
-Alphabet == {39, 34, 92, 37, 72, 70, 46, 121, 100, 99, 103, 120, 58}     \* ' " \ % H F . y d c g x :
+Alphabet == {39, 34, 92, 37, 72, 70, 46, 121, 100, 99, 103, 120, 58, 90, 43, 68}     \* ' " \ % H F . y d c g x : Z + D
 Texts == UNION {[1..n -> Alphabet] : n \in 2..MaxLen}
 Init == type \in GrammarTypes /\ text \in Texts
 Next == UNCHANGED <<type, text>>
 Spec == Init /\ [][Next]_<<type, text>>
 Outcomes == {"Ok", "Error_missing_end_quote", "Error_escape_at_end", "Error_percent_at_end", "Error_percent_doubled", "Error_unquoted_literal",
-             "Error_repeat_count_exceeded", "Error_invalid_repeat_count", "Error_repeated_field", "Error_era_without_year_of_era", "Error_calendar_and_era"}
+             "Error_repeat_count_exceeded", "Error_invalid_repeat_count", "Error_repeated_field", "Error_era_without_year_of_era", "Error_calendar_and_era",
+             "Error_hour12_not_supported", "Error_z_prefix_not_at_start", "Error_multiple_total_fields", "Error_empty_z_prefixed_pattern"}
 Total == Grammar(type, text) \in Outcomes
 RefinesQuotingLayer == Scan(text) # "Ok" => Grammar(type, text) # "Ok"
 QuotedLiteralKeepsPattern == Grammar(type, text) = "Ok" => Grammar(type, text \o <<39, 120, 39>>) = "Ok"
